@@ -21,6 +21,36 @@ def gen_history(rng, cfg, spec, n_ops=None, ops_kinds=("evaluate",), dictgen=Non
     return ops
 
 
+def family_root(spec, nid):
+    """The dataset a chain of derivations starts from."""
+    by = {n["id"]: n for n in spec["nodes"]}
+    while by[nid]["k"] == "derive":
+        nid = by[nid]["base"]
+    return nid
+
+
+def late_registrations(rng, spec, ops, count=(1, 2), via_derived=0.5, before_first_use=True):
+    """Insert register ops (overload decorator form) into a history: on dispatching datasets and on datasets DERIVED from
+    them (with_options / with_default_options share the overload table with their origin, in both directions)."""
+    by = {n["id"]: n for n in spec["nodes"]}
+    dispatching = [n["id"] for n in spec["nodes"] if n["k"] == "dataset" and n.get("dispatch") is not None and n.get("body") != "selector"]
+    derived = [n["id"] for n in spec["nodes"] if n["k"] == "derive" and family_root(spec, n["id"]) in dispatching]
+    if not dispatching or not ops:
+        return 0
+    leaves = [n["id"] for n in spec["nodes"] if n["k"] == "opt"]
+    made = 0
+    for j in range(rng.randint(*count)):
+        ds = rng.choice(derived) if derived and rng.random() < via_derived else rng.choice(dispatching)
+        alias = rng.choice(U.DISPATCH_VALUES[:5])
+        args = {"a": rng.choice(leaves)} if leaves and rng.random() < 0.8 else {}
+        # (stored values are not invalidated by a registration: unless a property models that, registrations come after the
+        #  derivations — which are part of the program — and before the first evaluation)
+        at = 0 if before_first_use else rng.randrange(0, len(ops) + 1)
+        ops.insert(at, {"op": "register", "ds": ds, "alias": alias, "impl": {"fn": f"late_ov{j}", "args": args}})
+        made += 1
+    return made
+
+
 class HistoryProperty(Property):
     ENGINE = "history-sim"
 
@@ -147,7 +177,7 @@ class HistoryProperty(Property):
     def _feature_drops(n):
         k = n["k"]
         if k == "dataset":
-            for f in ("callback", "effects", "effects_opt", "log_effects", "options", "default_options", "overloads", "cache", "abstract"):
+            for f in ("callback_opt", "callback", "effects", "effects_opt", "log_effects", "options", "default_options", "overloads", "cache", "abstract"):
                 if n.get(f):
                     m = copy.deepcopy(n)
                     del m[f]
@@ -191,6 +221,10 @@ class HistoryProperty(Property):
                     del m[key][i]
                     yield m
         elif k == "dsclass":
+            if n.get("base"):
+                m = copy.deepcopy(n)
+                del m["base"]
+                yield m
             for part in ("fields", "plain", "mixin"):
                 for i in range(len(n[part])):
                     if sum(len(n[q]) for q in ("fields", "plain", "mixin")) > 1:
